@@ -1,6 +1,7 @@
 //! C16 laziness: nothing runs before the terminal call.
 
 use super::*;
+use crate::analysis::runs;
 use crate::known;
 use crate::run::max_depth;
 
@@ -85,6 +86,38 @@ fn check_c16(case: &Case) -> Verdict {
     if let Some(f) = super::config::value_fail(case, &r, &m) {
         v.fail = Some(f);
         return v;
+    }
+    // ... "under the parameters in effect at that call": every run the terminal starts resolves them
+    let (nt, cs) = case.final_params();
+    for run in runs(&r.log).iter().filter(|x| x.begin >= r.term_start) {
+        let chunk_ok = match cs {
+            CsModel::Exact(c) => {
+                let want = match run.input_len {
+                    Some(len) => c.min(len.max(1)),
+                    None => c,
+                };
+                run.exact && run.chunk == want
+            }
+            CsModel::Min(_) | CsModel::Auto => !run.exact,
+        };
+        let threads_ok = match nt {
+            NtModel::Max(n) => run.max_num_threads <= n,
+            NtModel::Auto => true,
+        };
+        if !chunk_ok || !threads_ok {
+            v.fail = Some(Verdict::fail(
+                format!(
+                    "the terminal ran with {}({}) and at most {} threads although the parameters in effect at the call are {:?} / {:?}",
+                    if run.exact { "Exact" } else { "Min" },
+                    run.chunk,
+                    run.max_num_threads,
+                    nt,
+                    cs
+                ),
+                generic_sig(case, "params-at-terminal-ignored"),
+            ));
+            return v;
+        }
     }
     v.nontrivial = !case.chain.is_empty();
     v
